@@ -626,7 +626,10 @@ class SymCtx:
         if cond is False or (isinstance(cond, numpy.bool_) and not bool(cond)):
             z = z3.BoolVal(False)
         else:
-            z = _zb(cond)
+            z = z3.simplify(_zb(cond))
+            if z3.is_true(z):
+                self.stats.queries += 1     # discharged by z3's simplifier
+                return
         neg = z3.Not(z)
         if self._check(neg):
             m = self.nice_model(neg) or None
